@@ -12,17 +12,20 @@ namespace C10Sem
 open Scm
 
 /-- **ID followed by canonicalisation is sound.**  Whenever ID returns an estimand `e` for `P(Y | do(X))` and
-`canonicalize` turns it into `e'` (again a single-world expression over the nodes: decidable `Expr.swOK`), then `e'`
-evaluated on the observational distribution of any compatible semi-Markovian model is the interventional distribution. -/
+`canonicalize` turns it into `e'`, then `e'` evaluated on the observational distribution of any compatible semi-Markovian
+model is the interventional distribution (at every in-range valuation).  No side condition is left: the estimand of ID
+is well scoped, single-world over the nodes, with non-vanishing denominators (Y0/Props/C01Sem.lean), and the canonical
+form stays single-world (Y0/Lemmas/CanonVocab.lean). -/
 theorem id_sound_canonical {topo : MG Name → Except Err (List Name)} (ts : TopoSound topo) (G : MG Name)
     (X Y : List Name) (hq : ValidQuery G X Y) (e : Expr) (h : identify topo G X Y = .ok e)
     (M : Scm) (hM : M.Compatible G) {ordering : Option (List Var)} {e' : Expr}
-    (hws : WellScoped e = true) (hc : canonicalize e ordering = .ok e') (hsw' : e'.swOK G = true)
+    (hc : canonicalize e ordering = .ok e')
     (σ' σ : Val) (hσ : InRange (M.env G) σ) (hσ' : InRange (M.env G) σ') :
     den (M.env G) σ' e' σ = M.doProb G X Y σ :=
-  canonical_of_sound hM hq.wf hq.ranked (M.doProb G X Y) (fun τ => id_sound ts G X Y hq e h M hM σ' τ) hws
+  canonical_of_sound hM hq.wf hq.ranked (M.doProb G X Y) (fun τ => id_sound ts G X Y hq e h M hM σ' τ)
+    (C01Sem.id_estimand_wellScoped G X Y e h)
     (C01Sem.id_estimand_swOK ts G hq.wf X Y e h) (C01Sem.id_estimand_denNZA ts G hq.wf X Y e h M hM σ')
-    hc hsw' hσ hσ'
+    hc hσ hσ'
 
 /-! ## non-vacuity: concrete semi-Markovian models -/
 
@@ -93,14 +96,14 @@ example : ProbFamily (bowM.envX bowG) := scm_envX_probFamily bowM_compatible bow
 def exBow : Expr := .frac (.prob none [plain 1, plain 0] []) (.prob none [plain 0] [])
 
 /-- so C10 holds in `bowM.env bowG` itself: `P(X, Y) / P(X)` and its canonical form denote the same number -/
-example (e' : Expr) (h : canon [plain 0, plain 1] exBow = .ok e') (hsw' : e'.swOK bowG = true) :
+example (e' : Expr) (h : canon [plain 0, plain 1] exBow = .ok e') :
     den (bowM.env bowG) (fun _ => 0) e' (fun _ => 1) = den (bowM.env bowG) (fun _ => 0) exBow (fun _ => 1) :=
   canon_den_scm bowM_compatible bowG_wf bowG_ranked (by decide) (by decide)
     (denNZ_of_denNZA _ (denNZA_of_obsOnly bowM_compatible bowG_wf _ exBow
       (.frac _ _ (.prob _ _ (by intro v hv; simp at hv; rcases hv with rfl | rfl <;> exact ⟨rfl, by decide⟩) (by simp))
         (.prob _ _ (by intro v hv; simp at hv; subst hv; exact ⟨rfl, by decide⟩) (by simp)))
       (.frac _ _ (.prob _ _ _) (.prob _ _ _))))
-    h hsw' (fun _ => Nat.one_lt_two) (fun _ => Nat.zero_lt_two)
+    h (fun _ => Nat.one_lt_two) (fun _ => Nat.zero_lt_two)
 
 /-! ### ID followed by canonicalisation, on the back-door graph -/
 
@@ -177,14 +180,14 @@ example (σ' σ : Val) (hσ : InRange (bdM.env bdG) σ) (hσ' : InRange (bdM.env
       den (bdM.env bdG) σ' e' σ = bdM.doProb bdG [1] [2] σ := by
   have h : ∃ e, identifyF checkedTopo 8 bdG [1] [2] = .ok e := ⟨_, rfl⟩
   obtain ⟨e, he⟩ := h
-  have hc : ∃ e', canonicalize e none = .ok e' ∧ e'.swOK bdG = true ∧ WellScoped e = true ∧ e'.eqb e = false := by
+  have hc : ∃ e', canonicalize e none = .ok e' ∧ e'.eqb e = false := by
     have : Except.ok e = identifyF checkedTopo 8 bdG [1] [2] := he.symm
     cases this
-    exact ⟨_, rfl, by decide, by decide, by decide⟩
-  obtain ⟨e', hce, hsw', hws, hne⟩ := hc
+    exact ⟨_, rfl, by decide⟩
+  obtain ⟨e', hce, hne⟩ := hc
   exact ⟨e, e', identifyF_ok _ 8 _ _ _ _ he, hce, hne,
     id_sound_canonical checkedTopo_sound bdG [1] [2] bd_validQuery e (identifyF_ok _ 8 _ _ _ _ he) bdM bdM_compatible
-      hws hce hsw' σ' σ hσ hσ'⟩
+      hce σ' σ hσ hσ'⟩
 
 end examples
 
